@@ -459,12 +459,16 @@ def r10_5(ctx, prog, crate):
         ok = sums is not None and len(sums) == 1 and not sums[0].conds
         ctx.check(ok, "R10.5", ["clear", "unconditional"], "clear() has %s paths / tests state before resetting: %s" % (
             len(sums) if sums is not None else "unsummarisable", [c for s in (sums or []) for c in s.conds][:3]), b.where(0))
+        adt0 = prog.adt("alloc::ThreadAllocInfo", crate)
+        allf = [f["name"] for f in adt0["variants"][0]["fields"]] if adt0 else []
         for sm in sums or []:
             v = sm.mem.get((1, ()))
-            whole = v is not None and v[0] == "site" and v[1] == "alloc::ThreadAllocInfo::new"
-            # or field by field: every field of the struct written with 0 / a fresh map
-            ctx.check(whole and set(sm.mem) == {(1, ())}, "R10.5", ["clear", "whole-struct-from-new"],
-                      "clear() leaves %s (expected *self = Self::new())" % {str(k): show(x) for k, x in sm.mem.items()}, b.where(sm.blocks[-1]))
+            whole = v is not None and v[0] == "site" and v[1] == "alloc::ThreadAllocInfo::new" and set(sm.mem) == {(1, ())}
+            # or field by field: EVERY field of the struct (ADT-enumerated) written with 0 / a fresh all-zero map
+            bywise = bool(allf) and set(sm.mem) == {(1, (f,)) for f in allf} and \
+                all((x[0] == "site" and x[1] == "alloc::AllocOpMap::new") if k[1] == ("tallies",) else x == ("int", 0) for k, x in sm.mem.items())
+            ctx.check(whole or bywise, "R10.5", ["clear", "whole-struct-from-new"],
+                      "clear() leaves %s (expected *self = Self::new(), or every field of %s reset)" % ({str(k): show(x) for k, x in sm.mem.items()}, allf), b.where(sm.blocks[-1]))
     nb = prog.body("alloc::ThreadAllocInfo::new", crate)
     adt = prog.adt("alloc::ThreadAllocInfo", crate)
     if ctx.anchor("R10.5", "ThreadAllocInfo::new + ADT", (1 if nb else 0) + (1 if adt else 0), 2):
